@@ -333,6 +333,21 @@ struct State {
     muted: Vec<bool>,
     /// print every frame to stderr (developer aid)
     trace: bool,
+    /// C19: while on, a `system.local` rows query (one per full metadata fetch) is held until a verdict is released
+    /// (`Some(true)` = answer it, `Some(false)` = answer ERROR); `meta_held` = queries currently held
+    meta_gate: bool,
+    meta_held: usize,
+    meta_verdict: Option<bool>,
+}
+
+/// The control connection's `SELECT … FROM system.local WHERE key='local'` (QUERY or EXECUTE of the prepared id).
+fn is_local_rows_query(parsed: &Parsed) -> bool {
+    let local = SYSTEM_TEXTS.iter().position(|s| *s == "system.local");
+    match parsed {
+        Parsed::Query { text, .. } => system_statement(text) && classify(text).is_some_and(|(ti, ver)| Some(ti) == local && !ver),
+        Parsed::Execute { id, .. } => id.len() == 16 && id.starts_with(b"SYS") && Some(id[3] as usize) == local && id[4] == 0,
+        _ => false,
+    }
 }
 
 struct Shared {
@@ -414,6 +429,9 @@ impl MockCluster {
                 auto_use: true,
                 muted: vec![false; n],
                 trace: std::env::var_os("VERIF_E2E_TRACE").is_some(),
+                meta_gate: false,
+                meta_held: 0,
+                meta_verdict: None,
             }),
             handler: Mutex::new(handler),
         });
@@ -590,6 +608,27 @@ impl MockCluster {
     pub fn kill_connection(&self, node: usize, conn: usize) {
         let st = self.shared.st.lock().unwrap();
         st.ctl[node][conn].kill.notify_one();
+    }
+
+    /// C19: while the gate is on, every `system.local` rows query (one per full metadata fetch / establishment
+    /// attempt) is held by the node until `release_meta` hands out a verdict for it.
+    pub fn set_meta_gate(&self, on: bool) {
+        self.shared.st.lock().unwrap().meta_gate = on;
+    }
+
+    /// Number of metadata fetches currently held at the gate.
+    pub fn meta_held(&self) -> usize {
+        self.shared.st.lock().unwrap().meta_held
+    }
+
+    /// Lets ONE held (or the next arriving) gated query through: `ok` = answered normally, else answered with ERROR.
+    pub fn release_meta(&self, ok: bool) {
+        self.shared.st.lock().unwrap().meta_verdict = Some(ok);
+    }
+
+    /// Has the verdict handed out by `release_meta` not been consumed by a gated query yet?
+    pub fn meta_verdict_pending(&self) -> bool {
+        self.shared.st.lock().unwrap().meta_verdict.is_some()
     }
 
     /// A muted node keeps reading (and recording) frames but answers nothing, keep-alives included.
@@ -798,6 +837,40 @@ async fn serve_conn(
             st.frames.push(req.clone());
             (req, internal_actions)
         };
+        // C19: scripted outcome of the `system.local` rows query, one per full metadata fetch (`set_meta_gate`)
+        let mut internal_actions = internal_actions;
+        if req.internal && is_local_rows_query(&req.parsed) {
+            let mut counted = false;
+            let verdict = loop {
+                {
+                    let mut st = shared.st.lock().unwrap();
+                    if !st.meta_gate {
+                        if counted {
+                            st.meta_held -= 1;
+                        }
+                        break true;
+                    }
+                    if !counted {
+                        st.meta_held += 1;
+                        counted = true;
+                    }
+                    if let Some(v) = st.meta_verdict.take() {
+                        st.meta_held -= 1;
+                        break v;
+                    }
+                }
+                tokio::select! {
+                    _ = tokio::time::sleep(Duration::from_micros(200)) => {}
+                    _ = kill.notified() => {
+                        shared.st.lock().unwrap().meta_held -= 1;
+                        return;
+                    }
+                }
+            };
+            if !verdict {
+                internal_actions = Some(vec![act_error(0x0000, "scripted metadata failure", &[])]);
+            }
+        }
         let is_startup = matches!(req.parsed, Parsed::Startup(_));
         let actions = match internal_actions {
             Some(a) => a,
